@@ -277,6 +277,21 @@ func stringChains(v ssa.Value, maxLen int) []chainResult {
 				walk(x.X, steps, seen)
 				return
 			}
+		case *ssa.UnOp:
+			// a load from a variable that lives in a cell (captured by a closure): every value stored into the cell,
+			// in the function that owns it and in its closures (flow-insensitive)
+			if x.Op == token.MUL && isStringType(x.Type()) {
+				if al := cellOf(x.X); al != nil {
+					n := 0
+					for _, sv := range storesInto(al) {
+						n++
+						walk(sv, steps, seen)
+					}
+					if n > 0 {
+						return
+					}
+				}
+			}
 		}
 		out = append(out, chainResult{append([]chainStep{}, steps...), v})
 	}
@@ -287,6 +302,65 @@ func stringChains(v ssa.Value, maxLen int) []chainResult {
 func isStringType(t types.Type) bool {
 	b, ok := t.Underlying().(*types.Basic)
 	return ok && b.Info()&types.IsString != 0
+}
+
+// cellOf: the Alloc behind an address – directly, or through the free variable of a closure.
+func cellOf(addr ssa.Value) *ssa.Alloc {
+	switch a := addr.(type) {
+	case *ssa.Alloc:
+		return a
+	case *ssa.FreeVar:
+		fn := a.Parent()
+		if fn == nil || fn.Parent() == nil {
+			return nil
+		}
+		idx := -1
+		for i, fv := range fn.FreeVars {
+			if fv == a {
+				idx = i
+			}
+		}
+		if idx < 0 {
+			return nil
+		}
+		for _, b := range fn.Parent().Blocks {
+			for _, ins := range b.Instrs {
+				if mc, ok := ins.(*ssa.MakeClosure); ok && mc.Fn == ssa.Value(fn) && idx < len(mc.Bindings) {
+					return cellOf(mc.Bindings[idx])
+				}
+			}
+		}
+	}
+	return nil
+}
+
+// storesInto: the values stored into the cell by its function and that function's closures.
+func storesInto(al *ssa.Alloc) []ssa.Value {
+	var out []ssa.Value
+	var fns []*ssa.Function
+	var add func(f *ssa.Function)
+	add = func(f *ssa.Function) {
+		fns = append(fns, f)
+		for _, a := range f.AnonFuncs {
+			add(a)
+		}
+	}
+	if al.Parent() == nil {
+		return nil
+	}
+	add(al.Parent())
+	for _, f := range fns {
+		for _, b := range f.Blocks {
+			for _, ins := range b.Instrs {
+				if st, ok := ins.(*ssa.Store); ok {
+					if cellOf(st.Addr) == al {
+						out = append(out, st.Val)
+					}
+				}
+			}
+		}
+	}
+	return out
 }
 
 // helperBind: parameters of new helpers → the arguments of the calls that were read through (filled by
